@@ -455,6 +455,22 @@ static void body_harness_e2e(const int KIND) {
   CHECK((h_probe_runs() != 0) == runs, "the tests selected are the documented ones");
   WITNESS("end");
 }
+/* an argument that is rejected (-h, no documented option, or a value its handler refuses) rejects the whole vector, whatever
+ * documented option stands before or after it: the REAL handlers run here, so a later handler's "accepted" must not overwrite the
+ * earlier rejection.  (Which single arguments are rejected is decided on all bytes by the dispatch and handler obligations; this
+ * one composes them: rejected argument BAD x documented option KIND (both concrete per obligation) x order.) */
+static void body_harness_e2e_reject(const int BAD, const int KIND) {
+  static const char* const value[] = { "12", "7", "aB", "aB", "aB", "aB", "aB", "aB", "aB", "aB", "aB.c_", "aB.c_", "aB.c_", "aB.c_", "aB, c_)", "aB, c_)", "junit", "pk" };
+  static const char* const bad[] = { "-h", "-w", "", "x", "-tab", "-oxx", "-s0", "-pq" };
+  h_init(); IN_BOOL(badFirst); IN_U64(now);
+  env_now_millis = now;
+  TEXT(att); catlit(att, kname[KIND]); catlit(att, value[KIND]);
+  TEXT(b); catlit(b, bad[BAD]);
+  uint32_t ok = badFirst ? h_parse(3, b, att, 0, 0, 0) : h_parse(3, att, b, 0, 0, 0);
+  OBSERVE(ok);
+  CHECK(ok == 0, "a vector containing -h, an undocumented argument or a refused value is rejected, wherever that argument stands");
+  WITNESS("end");
+}
 /* the options that may come without a value, followed by another option: nothing of the next option is swallowed */
 static void body_harness_e2e_bare(const int SHUFFLE) {
   h_init(); IN_BOOL(flagFirst); IN_U64(now);
@@ -506,3 +522,11 @@ K1(harness_flag, 7) K1(harness_flag, 8) K1(harness_flag, 9) K1(harness_flag, 10)
 K1(harness_e2e, 0) K1(harness_e2e, 1) K1(harness_e2e, 2) K1(harness_e2e, 3) K1(harness_e2e, 4) K1(harness_e2e, 5) K1(harness_e2e, 6) K1(harness_e2e, 7) K1(harness_e2e, 8)
 K1(harness_e2e, 9) K1(harness_e2e, 10) K1(harness_e2e, 11) K1(harness_e2e, 12) K1(harness_e2e, 13) K1(harness_e2e, 14) K1(harness_e2e, 15) K1(harness_e2e, 16) K1(harness_e2e, 17)
 K1(harness_e2e_bare, 0) K1(harness_e2e_bare, 1)
+K2(harness_e2e_reject, 0, 0) K2(harness_e2e_reject, 0, 1) K2(harness_e2e_reject, 0, 2) K2(harness_e2e_reject, 0, 3) K2(harness_e2e_reject, 0, 4) K2(harness_e2e_reject, 0, 5) K2(harness_e2e_reject, 0, 6) K2(harness_e2e_reject, 0, 7) K2(harness_e2e_reject, 0, 8) K2(harness_e2e_reject, 0, 9) K2(harness_e2e_reject, 0, 10) K2(harness_e2e_reject, 0, 11) K2(harness_e2e_reject, 0, 12) K2(harness_e2e_reject, 0, 13) K2(harness_e2e_reject, 0, 14) K2(harness_e2e_reject, 0, 15) K2(harness_e2e_reject, 0, 16) K2(harness_e2e_reject, 0, 17)
+K2(harness_e2e_reject, 1, 0) K2(harness_e2e_reject, 1, 1) K2(harness_e2e_reject, 1, 2) K2(harness_e2e_reject, 1, 3) K2(harness_e2e_reject, 1, 4) K2(harness_e2e_reject, 1, 5) K2(harness_e2e_reject, 1, 6) K2(harness_e2e_reject, 1, 7) K2(harness_e2e_reject, 1, 8) K2(harness_e2e_reject, 1, 9) K2(harness_e2e_reject, 1, 10) K2(harness_e2e_reject, 1, 11) K2(harness_e2e_reject, 1, 12) K2(harness_e2e_reject, 1, 13) K2(harness_e2e_reject, 1, 14) K2(harness_e2e_reject, 1, 15) K2(harness_e2e_reject, 1, 16) K2(harness_e2e_reject, 1, 17)
+K2(harness_e2e_reject, 2, 0) K2(harness_e2e_reject, 2, 1) K2(harness_e2e_reject, 2, 2) K2(harness_e2e_reject, 2, 3) K2(harness_e2e_reject, 2, 4) K2(harness_e2e_reject, 2, 5) K2(harness_e2e_reject, 2, 6) K2(harness_e2e_reject, 2, 7) K2(harness_e2e_reject, 2, 8) K2(harness_e2e_reject, 2, 9) K2(harness_e2e_reject, 2, 10) K2(harness_e2e_reject, 2, 11) K2(harness_e2e_reject, 2, 12) K2(harness_e2e_reject, 2, 13) K2(harness_e2e_reject, 2, 14) K2(harness_e2e_reject, 2, 15) K2(harness_e2e_reject, 2, 16) K2(harness_e2e_reject, 2, 17)
+K2(harness_e2e_reject, 3, 0) K2(harness_e2e_reject, 3, 1) K2(harness_e2e_reject, 3, 2) K2(harness_e2e_reject, 3, 3) K2(harness_e2e_reject, 3, 4) K2(harness_e2e_reject, 3, 5) K2(harness_e2e_reject, 3, 6) K2(harness_e2e_reject, 3, 7) K2(harness_e2e_reject, 3, 8) K2(harness_e2e_reject, 3, 9) K2(harness_e2e_reject, 3, 10) K2(harness_e2e_reject, 3, 11) K2(harness_e2e_reject, 3, 12) K2(harness_e2e_reject, 3, 13) K2(harness_e2e_reject, 3, 14) K2(harness_e2e_reject, 3, 15) K2(harness_e2e_reject, 3, 16) K2(harness_e2e_reject, 3, 17)
+K2(harness_e2e_reject, 4, 0) K2(harness_e2e_reject, 4, 1) K2(harness_e2e_reject, 4, 2) K2(harness_e2e_reject, 4, 3) K2(harness_e2e_reject, 4, 4) K2(harness_e2e_reject, 4, 5) K2(harness_e2e_reject, 4, 6) K2(harness_e2e_reject, 4, 7) K2(harness_e2e_reject, 4, 8) K2(harness_e2e_reject, 4, 9) K2(harness_e2e_reject, 4, 10) K2(harness_e2e_reject, 4, 11) K2(harness_e2e_reject, 4, 12) K2(harness_e2e_reject, 4, 13) K2(harness_e2e_reject, 4, 14) K2(harness_e2e_reject, 4, 15) K2(harness_e2e_reject, 4, 16) K2(harness_e2e_reject, 4, 17)
+K2(harness_e2e_reject, 5, 0) K2(harness_e2e_reject, 5, 1) K2(harness_e2e_reject, 5, 2) K2(harness_e2e_reject, 5, 3) K2(harness_e2e_reject, 5, 4) K2(harness_e2e_reject, 5, 5) K2(harness_e2e_reject, 5, 6) K2(harness_e2e_reject, 5, 7) K2(harness_e2e_reject, 5, 8) K2(harness_e2e_reject, 5, 9) K2(harness_e2e_reject, 5, 10) K2(harness_e2e_reject, 5, 11) K2(harness_e2e_reject, 5, 12) K2(harness_e2e_reject, 5, 13) K2(harness_e2e_reject, 5, 14) K2(harness_e2e_reject, 5, 15) K2(harness_e2e_reject, 5, 16) K2(harness_e2e_reject, 5, 17)
+K2(harness_e2e_reject, 6, 0) K2(harness_e2e_reject, 6, 1) K2(harness_e2e_reject, 6, 2) K2(harness_e2e_reject, 6, 3) K2(harness_e2e_reject, 6, 4) K2(harness_e2e_reject, 6, 5) K2(harness_e2e_reject, 6, 6) K2(harness_e2e_reject, 6, 7) K2(harness_e2e_reject, 6, 8) K2(harness_e2e_reject, 6, 9) K2(harness_e2e_reject, 6, 10) K2(harness_e2e_reject, 6, 11) K2(harness_e2e_reject, 6, 12) K2(harness_e2e_reject, 6, 13) K2(harness_e2e_reject, 6, 14) K2(harness_e2e_reject, 6, 15) K2(harness_e2e_reject, 6, 16) K2(harness_e2e_reject, 6, 17)
+K2(harness_e2e_reject, 7, 0) K2(harness_e2e_reject, 7, 1) K2(harness_e2e_reject, 7, 2) K2(harness_e2e_reject, 7, 3) K2(harness_e2e_reject, 7, 4) K2(harness_e2e_reject, 7, 5) K2(harness_e2e_reject, 7, 6) K2(harness_e2e_reject, 7, 7) K2(harness_e2e_reject, 7, 8) K2(harness_e2e_reject, 7, 9) K2(harness_e2e_reject, 7, 10) K2(harness_e2e_reject, 7, 11) K2(harness_e2e_reject, 7, 12) K2(harness_e2e_reject, 7, 13) K2(harness_e2e_reject, 7, 14) K2(harness_e2e_reject, 7, 15) K2(harness_e2e_reject, 7, 16) K2(harness_e2e_reject, 7, 17)
